@@ -1,0 +1,12 @@
+//go:build verif
+
+// Machine-checked specifications for package portforwarding (comment-only file;
+// read by /verif/bin/hopvc).
+
+package portforwarding
+
+// readPacket decodes a peer-supplied forwarding request: on success it yields an address object
+// (its callers call methods on it), never a nil interface.
+//@ func readPacket(r io.Reader) (addr net.Addr, fwdType byte, err error)
+//@   property C11
+//@   ensures err == nil ==> addr != nil
